@@ -1,5 +1,6 @@
 """C14 - generic-width conversions: zero/NaR preservation, saturation / N == 2 cells, integer heads per N (R2); to_f64 routing (R7)."""
 from fractions import Fraction
+from interp import site_key
 import spec as S
 import gcr
 from gcr import P8, P16, P32, posit_arg, int_arg, run_cells, cuts_to_cells
@@ -223,7 +224,7 @@ def routing_px(ctx, prog, xty, n, path):
             r = rules_routing.result_int(out.value) if out.kind == 'return' else None
             if out.kind == 'panic':
                 site = getattr(out, 'site', None)
-                ctx.finding('PANIC', site[0] if site else path, '%s#%d' % (site[1], site[2]) if site else 'panic',
+                ctx.finding('PANIC', *(site_key(site) if site else (path, 'panic')),
                             '%s<%d>::to_f64 panics on regime cell %s: %s at %s' % (xty.name, n, cname, out.value, out.where))
                 continue
             if r is None or any(b is None for b in rules_routing.sym_msb_first(r)):
